@@ -5,26 +5,22 @@ from . import textrules as R
 
 def run(rep, tier):
     rep.rule("C-esc", "utils.escapeQuotes, interpreted on exemplar texts, doubles every double quote and changes nothing else (W-doc decides that every written payload passes through it)")
-    rep.rule("C-unesc", "every payload the two text readers return is un-doubled exactly once, after its delimiting quotes were removed")
-    rep.rule("C-regex-label", "the long reader's payload regexes are greedy and span lines")
     rep.rule("C-num-regex", "every numeric regex of the long reader captures whole every exemplar of the writer's numeric language, placed in the writer's own line template")
     rep.rule("C-num-conv", "utils.strToIntOrFloat, interpreted on the exemplars, returns their value")
     rep.rule("C-exact", "numToStr: repr on the non-integer path, the integer written is the integer compared, tolerance <= 1e-14")
     rep.rule("C-keys", "the dictionary protocol: emitted keys equal the README schemas; the plain-json conversion is a bijection that drops only per-tier spans and keeps tier order")
     rep.rule("C-flow", "blank removal is symmetric: exactly the entries with an empty label, iff includeEmptyIntervals is False")
-    rep.rule("C-blocks", "the short reader pairs adjacent tier offsets only on an ascending list (one scan, or sorted after the merge)")
     rep.rule("C-scan", "delimiter scans over raw text cannot match inside an escaped payload (constructive test)")
     rep.not_decided.append("that the regex/offset parsers invert the emitters for every Unicode label (a language-inverse question about two programs)")
     rep.not_decided.append("float(repr(x)) == x (CPython guarantee, trusted); file-system and codec behaviour")
     rep.rule("W-doc", "both text emitters interpreted on generic textgrids (symbolic times, labels and names): an independent reader written from Praat's text-file specification (free-standing numbers, quoted strings with doubled quotes, flags; all else comment) recovers every name, class, span, declared size, time and label in order")
     R.rule_written_document(rep, tier)
     R.rule_escape_function(rep)
-    R.rule_unescape_read(rep)
-    R.rule_label_regex(rep)
+    rep.rule("RT-doc", "parseTextgridStr (with both text parsers, the row fetchers and strToIntOrFloat inlined) interpreted on the text the two emitters write for generic textgrids -- numerals and labels are opaque atoms; labels carry adversarial skeletons (doubled quote + line break, quote-only label, quote before blanks and a line break, trailing quote) -- returns the dictionary that was written")
+    R.rule_round_trip(rep, tier)
     R.rule_numeric_regex(rep, tier)
     R.rule_numeric_conversion(rep, tier)
     R.rule_exact_formatter(rep)
     R.rule_json_protocol(rep)
     R.rule_reader_flow(rep)
     R.rule_scans(rep)
-    R.rule_block_order(rep)
